@@ -306,14 +306,14 @@ def handleAstdiff (id : String) (xs : List Sx) : String :=
       -- the declarations not paired as identical, and the hypothesis of `untouched_neighbours_left_alone` for
       -- every declaration that is: do the others lie, with their regions, on one side of its extent?
       let decls := match AD.declsOf old (AD.strip new) with
-        | some (ds, regs, fts) =>
+        | some (ds, regs, fts, samelen, tw) =>
             let tagged : List (AD.AV × AD.Fate) := ds.zip fts
             let nonid := tagged.filterMap (fun (x : AD.AV × AD.Fate) => match x.2 with
               | AD.Fate.same _ => none
               | _ => some s!" ({x.1.pos} {x.1.stop})")
             let ident := tagged.filter (fun (x : AD.AV × AD.Fate) => match x.2 with | AD.Fate.same _ => true | _ => false)
             let fails := ident.filter (fun (x : AD.AV × AD.Fate) => let (lo, hi) := AD.extentOf x.1; !AD.sepB lo hi ds regs fts)
-            s!" (nonid{String.join nonid}) (identical {ident.length}) (sepfail {fails.length}{String.join (fails.map (fun (x : AD.AV × AD.Fate) => let (lo, hi) := AD.extentOf x.1; s!" ({lo} {hi})"))})"
+            s!" (nonid{String.join nonid}) (identical {ident.length}) (samelen {if samelen then 1 else 0}) (twins {tw}) (ndecls {ds.length}) (sepfail {fails.length}{String.join (fails.map (fun (x : AD.AV × AD.Fate) => let (lo, hi) := AD.extentOf x.1; s!" ({lo} {hi})"))})"
         | none => " (nodecls)"
       s!"(res {id} (changed{String.join (ch.map (fun r => s!" ({r.pos} {r.stop})"))}){snap}{bad}{decls})"
   | _, _ => s!"(res {id} (bad-case))"
